@@ -81,3 +81,4 @@ pub fn subscription_builtin_topic_data(
         type_consistency: reader_qos.type_consistency.clone(),
     }
 }
+pub use crate::dcps::status_mask::StatusMask;
